@@ -13,7 +13,7 @@ RULE = ('case = one ParsedAnsiControlSequenceString(s, allow_empty_terminator, a
 ASSUMPTIONS = ['control sequence = ESC [ + bytes 0x20-0x3f + one final byte 0x40-0x7e',
                'bodies containing other bytes (C0 controls, ESC, > 0x7e) are grey for the tokenisation clause only']
 MIN_EVAL = 1000
-CASES = {'quick': 400, 'thorough': 8000}
+CASES = {'quick': 3200, 'thorough': 48000}
 ESC = '\x1b'
 ALPHA = [ESC, ESC + '[', ESC + '[', '[', '1', '2', '0', ';', '?', ' ', 'm', 'm', 'H', 'J', '~', '@', 'a', 'é', 'x',
          ESC + '[m', ESC + '[1;31m', ESC + '[2J', ESC + '[?25h']
